@@ -622,6 +622,28 @@ pub fn c30_gen(case: &Case, res: &[RunResult], obs: &mut Obs) -> Result<(), Fail
             }
         }
     }
+    // (c) across_ticks outputs: the concatenation over all ticks equals that of the run in which
+    //     every input arrives as a single batch
+    if let Some(i) = case.notes.iter().position(|n| n == "single-batch") {
+        for o in p.outputs.iter().filter(|o| o.concat) {
+            let got = hist.items(&o.name);
+            let want = res[i].items(&o.name);
+            if got != want {
+                return Err(Fail::new(
+                    format!("c30/{}/across-concat:{:?}", out_label(p, o), o.kind),
+                    format!(
+                        "output {} of {} is across_ticks(..) of a per-item pipeline: its concatenation over the ticks must not depend on the batching\n history      : {}\n single batch : {}\n history batches per tick: {}\n source: {}",
+                        o.name,
+                        p.name,
+                        serde_json::json!(got),
+                        serde_json::json!(want),
+                        describe(s),
+                        p.src.clone().unwrap_or_default()
+                    ),
+                ));
+            }
+        }
+    }
     // (a) window locality
     let mut compared = 0;
     for (i, note) in case.notes.iter().enumerate() {
@@ -631,7 +653,7 @@ pub fn c30_gen(case: &Case, res: &[RunResult], obs: &mut Obs) -> Result<(), Fail
         let idx: usize = it.next().unwrap().parse().unwrap();
         let w = &res[i];
         for o in &p.outputs {
-            if !o.kind.per_tick() {
+            if !o.kind.per_tick() || o.concat {
                 continue;
             }
             let got = hist.tick_items(&o.name, t);
